@@ -153,6 +153,10 @@ pub struct EvalPlan {
     pub abort: Option<AbortPlan>,
     pub contract: BTreeMap<usize, ContractMode>,
     pub misuse: Vec<MisusePlan>,
+    /// action indices at which the driver calls `reconsider_all_jobs()` (a legal, public call the
+    /// python runner keeps as a debugging aid): at a fixpoint it must change nothing
+    #[serde(default)]
+    pub reconsider: Vec<u32>,
 }
 
 impl EvalPlan {
@@ -169,6 +173,7 @@ impl EvalPlan {
             abort: None,
             contract: BTreeMap::new(),
             misuse: Vec::new(),
+            reconsider: Vec::new(),
         }
     }
     pub fn fault_free(&self) -> bool {
